@@ -293,8 +293,11 @@ func (i *interpreter) fmtOperand(fr *frame, verb byte, plus, sharp bool, arg val
 			return bytesOfString(strconv.FormatBool(i.decide(x.t)))
 		}
 		if kindIsInt(x.k) {
-			// the digits of a symbolic integer: concretise (bounded by MaxPicks)
-			return i.fmtOperand(fr, verb, plus, sharp, fromBits(x.k, i.concretize(x.t, "integer formatted by fmt")), depth)
+			// The digits of a symbolic integer are not computed: the text gets an opaque
+			// token. Code whose control flow depends on those digits is outside what the
+			// engine can claim; translator validation flags any observed difference.
+			i.ps.opaqueInts++
+			return bytesOfString("\u2039int\u203a")
 		}
 		i.unsupported("fmt of a symbolic %v", x.k)
 	case int, int8, int16, int32, int64:
